@@ -165,8 +165,10 @@ def gen_fault(rng, kind, n, offs):
         return {"kind": kind, "at": _offset(rng, max(0, n - 1), offs), "val": v}
     if kind == "pad":
         fill = rng.choice(("1a", "00", "rand", "block", "ff"))
-        return {"kind": kind, "n": rng.choice((1, 2, 5, 128, rng.randint(1, 1024))), "fill": fill,
-                "seed": rng.getrandbits(32)}
+        # now and then far more garbage than image: 64 KiB and 1 MiB marks
+        big = rng.choice((65535, 65536, 70000, (1 << 20) + 1)) if rng.random() < 0.04 else 0
+        return {"kind": kind, "n": big or rng.choice((1, 2, 5, 128, rng.randint(1, 1024))),
+                "fill": fill if not big else rng.choice(("00", "ff", "1a")), "seed": rng.getrandbits(32)}
     if kind in ("sector_zero", "sector_drop", "sector_dup"):
         ns = max(1, (n + SECTOR - 1) // SECTOR)
         return {"kind": kind, "sector": rng.choice((0, ns - 1, rng.randrange(ns)))}
